@@ -224,5 +224,33 @@ PROPS["C09"] = dict(
                 "sampled. One known finding (F9, UnsignedAsFloat) is reported as KNOWN-FINDING and excluded by a structural predicate."),
     level_note="'plus float rounding' is taken as 4 ulp of 1 in the destination float type.",
 )
+PROPS["C16"] = dict(
+    pkg="c16", idx=16,
+    rule=("Cases = depth b in 1..64 x signed and unsigned 64-bit values to clip (sweep: every int64/uint64 within +-3 of 0, +-2^k and the type bounds, for "
+          "all 64 depths; rapid: values around the depth's own bounds and uniform random) x a Scale[T](h,l) query (sweep: all pairs h>=l in 1..64 x the 11 "
+          "integer types). Oracle (math/big): Max/Min/MaxUnsigned = 2^(b-1)-1, -2^(b-1), 2^b-1; Signed/UnsignedValue = clamp, idempotent, order-preserving "
+          "on sorted inputs; Scale = 2^(h-l) whenever that fits T. Non-trivial: any depth other than 8 (the only one the examples touch), or a Scale query."),
+    quick=dict(rapid=dict(checks=30000, shards=2)),
+    thorough=dict(rapid=dict(checks=400000, shards=16), fuzz=dict(targets=["FuzzC16"], seconds=20)),
+    assumptions=COMMON_ASSUME,
+    technique="exhaustive enumeration of all 64 depths x boundary values and all Scale depth pairs x types + property-based testing (rapid), compared with math/big",
+    level_text=("All 64 depths, the boundary-dense value set and every Scale(h,l,T) combination are enumerated completely in both tiers; random 64-bit values add sampling."),
+    level_note="Depths outside 1..64 are outside the property.",
+)
+
+PROPS["C17"] = dict(
+    pkg="c17", idx=17,
+    rule=("Cases = frequency f (standard audio rates 8 kHz..5.6448 MHz, integer rates 1..10^6, fractional p/q, powers of two (exact ties), random float64 in "
+          "[0.01,10^7]) x event counts in 0..f*86400 and durations in 0..24 h, half of them moved to the argument closest to a rounding tie within a window of "
+          "512. Oracle (exact math/big.Rat, f taken as the exact float64): |Duration(n) - n*10^9/f| <= 1/2 + 2^-50*exact ns, |Events(d) - f*d/10^9| <= 1/2 + "
+          "2^-50*exact, both non-decreasing (n vs n+1, d vs d+1, along sorted samples), and for f<=10^6 Events(Duration(n)) == n. Non-trivial: the exact value "
+          "is not an integer (rounding direction matters); sub-class within 10^-3 of a tie."),
+    quick=dict(rapid=dict(checks=30000, shards=4)),
+    thorough=dict(rapid=dict(checks=300000, shards=16), fuzz=dict(targets=["FuzzC17"], seconds=20)),
+    assumptions=COMMON_ASSUME + ["'plus float rounding' is taken as a relative 2^-50 of the exact value (two float64 roundings)"],
+    technique="property-based testing (rapid) with tie-seeking generators + deterministic grid over standard rates, compared with exact rational arithmetic",
+    level_text=("Sampled exploration with an exact rational oracle; the standard rates are covered by a deterministic grid (first 300 counts, +-3 around every hour up to 24 h)."),
+    level_note="Domain limited to 0.01 Hz <= f <= 10 MHz, spans up to 24 h, as the property quantifies.",
+)
 
 NOT_APPLICABLE = {}
